@@ -15,7 +15,7 @@ KeysAt(hist, t) ==
   IF S = {} THEN {} ELSE hist[CHOOSE i \in S : \A j \in S : j <= i].keys
 
 (* commit: [et, signer, altered, shape]; shape "ops": a pack with operations, "empty": a commit without operations (what a
-   merge commit is) - the rule is the same for both: every commit by an author with keys in force must be signed *)
+   merge commit is), "unsorted": a pack whose tree lists its entries in another order than git writes them - the rule is the same for all: every commit by an author with keys in force must be signed *)
 Accept(hist, c) ==
   \/ KeysAt(hist, c.et) = {}
   \/ (c.signer \in KeysAt(hist, c.et) /\ ~c.altered)
